@@ -51,11 +51,19 @@ fn main() {
             }
         });
     }
-    let cases = match props::cases(prop, tier, seed) {
-        Some(c) => c,
-        None => {
+    let generated = std::panic::catch_unwind(|| props::cases(prop, tier, seed));
+    let cases = match generated {
+        Ok(Some(c)) => c,
+        Ok(None) => {
             eprintln!("unknown property {}", prop);
             std::process::exit(2);
+        }
+        Err(_) => {
+            // a panic of the implementation outside a guarded call: report it with the announced input
+            let label = core::CURRENT.lock().map(|c| c.clone().map(|x| x.0)).unwrap_or(None).unwrap_or_default();
+            let mut c = core::Case::new(label.clone(), "panic".to_string()).proj(core::Proj::None);
+            c = c.fail("panic", "the implementation panicked on this input (outside a guarded call of the harness)".to_string());
+            vec![c]
         }
     };
     core::watch_clear();
